@@ -1,0 +1,9 @@
+//go:build !verif
+
+package dkv
+
+import "reduction.dev/reduction/dkv/sst"
+
+func verifTuneOptions(options DBOptions) DBOptions { return options }
+
+func verifTuneCompactor(*sst.Compactor) {}
